@@ -169,3 +169,118 @@ def cache_transparency(protocol="file", level="1.5", rpc_w=2, rpc_r=3, producer=
                 fs.rm(base, recursive=True)
             except Exception:  # noqa: BLE001
                 pass
+
+
+def cache_states(local, remote, k_frac=0.5, use_cache=True, create_cache=False, level="1.5", rpc=3):
+    """put the two cache locations of every image into the given states (0 absent, 1 complete, 2 torn after k_frac of the
+    document), open through open_alos2 with the given options and compare with an uncached open"""
+    import glob
+
+    import platformdirs
+
+    import ceos_alos2
+    from ceos_alos2.sar_image.caching import path as cpath
+    from vlib import synth
+
+    root = tempfile.mkdtemp(prefix="vstates_")
+    os.environ["XDG_CACHE_HOME"] = os.path.join(root, "_xdg")
+    cpath.cache_root = platformdirs.user_cache_path(cpath.project_name)
+    try:
+        base = os.path.join(root, "prod")
+        datas = synth.product(synth.dir_writer(base), level, n=5, p=4, pols=("HH", "HV"))
+        ceos_alos2.open_alos2(base, backend_options={"use_cache": False, "create_cache": True, "records_per_chunk": 2})
+        docs = {}
+        for f in glob.glob(os.path.join(cpath.cache_root, "*", "*.index")):
+            docs[f] = open(f).read()
+        if len(docs) != len(datas):
+            return {"reproduced": True, "error": f"create_cache=True wrote {len(docs)} index files for {len(datas)} images"}
+        for f, doc in docs.items():
+            cut = min(int(len(doc) * k_frac), len(doc) - 1)
+            adj = os.path.join(base, os.path.basename(f))
+            for where, state in ((f, local), (adj, remote)):
+                if state == 0:
+                    if os.path.exists(where):
+                        os.remove(where)
+                else:
+                    with open(where, "w") as fh:
+                        fh.write(doc if state == 1 else doc[:cut])
+        listing_before = sorted(os.listdir(base))
+        try:
+            got = ceos_alos2.open_alos2(base, backend_options={"use_cache": use_cache, "create_cache": create_cache, "records_per_chunk": rpc})
+        except Exception as e:  # noqa: BLE001
+            return {"reproduced": True, "error": f"open_alos2 raised {type(e).__name__}: {str(e)[:200]}"}
+        plain = ceos_alos2.open_alos2(base, backend_options={"use_cache": False, "records_per_chunk": rpc})
+        diffs = tree_diff(plain, got)
+        for name, d in datas.items():
+            pol = name.split("-")[1]
+            if not np.array_equal(got[f"imagery/{pol}/data"].values, d):
+                diffs.append(f"pixels of {pol} differ from the synthesised samples")
+        if sorted(os.listdir(base)) != listing_before:
+            diffs.append("the product directory was modified")
+        return {"reproduced": bool(diffs), "diffs": diffs[:6]}
+    finally:
+        shutil.rmtree(root, ignore_errors=True)
+
+
+def history(level="1.5"):
+    """a fixed multi-step history of opens / CLI cache creation / deletions; every open must equal a fresh uncached open"""
+    import copy
+    import glob
+    import hashlib
+    import pathlib
+
+    import platformdirs
+
+    import ceos_alos2
+    from ceos_alos2.sar_image import cli
+    from ceos_alos2.sar_image.caching import path as cpath
+    from vlib import synth
+
+    root = tempfile.mkdtemp(prefix="vhist_")
+    os.environ["XDG_CACHE_HOME"] = os.path.join(root, "_xdg")
+    cpath.cache_root = platformdirs.user_cache_path(cpath.project_name)
+    try:
+        base = os.path.join(root, "prod")
+        datas = synth.product(synth.dir_writer(base), level, n=5, p=4, pols=("HH", "HV"))
+
+        def snapshot():
+            return {f: hashlib.sha256(open(os.path.join(base, f), "rb").read()).hexdigest() for f in sorted(os.listdir(base))}
+
+        snap0 = snapshot()
+        steps = [("open", True, False, 2), ("open", True, True, 3), ("open", True, False, 7), ("cli", None, None, 4), ("open", True, False, 1),
+                 ("del_local",), ("open", True, False, 5), ("del_adj",), ("open", False, True, 2), ("open", True, False, 6), ("open", False, False, 5)]
+        for i, st in enumerate(steps):
+            if st[0] == "open":
+                opts = {"use_cache": st[1], "create_cache": st[2], "records_per_chunk": st[3], "storage_options": {}}
+                keep = copy.deepcopy(opts)
+                try:
+                    got = ceos_alos2.open_alos2(base, backend_options=opts)
+                except Exception as e:  # noqa: BLE001
+                    return {"reproduced": True, "step": i, "op": st, "error": f"{type(e).__name__}: {str(e)[:200]}", "steps": i}
+                if opts != keep:
+                    return {"reproduced": True, "step": i, "op": st, "error": "backend_options mutated", "steps": i}
+                plain = ceos_alos2.open_alos2(base, backend_options={"use_cache": False, "records_per_chunk": st[3]})
+                diffs = tree_diff(plain, got)
+                for pol in ("HH", "HV"):
+                    if got[f"imagery/{pol}/data"].encoding != plain[f"imagery/{pol}/data"].encoding:
+                        diffs.append("preferred chunks differ")
+                if diffs:
+                    return {"reproduced": True, "step": i, "op": st, "diffs": diffs[:5], "steps": i}
+            elif st[0] == "cli":
+                for name in datas:
+                    cli.create_cache(pathlib.Path(base) / name, None, st[3])
+            elif st[0] == "del_local":
+                for f in glob.glob(os.path.join(cpath.cache_root, "*", "*.index")):
+                    os.remove(f)
+            elif st[0] == "del_adj":
+                for f in glob.glob(os.path.join(base, "*.index")):
+                    os.remove(f)
+            now = {k: v for k, v in snapshot().items() if not k.endswith(".index")}
+            if now != snap0:
+                return {"reproduced": True, "step": i, "op": st, "error": "product directory modified", "steps": i}
+            extra = [k for k in snapshot() if k.endswith(".index")]
+            if extra and not any(s[0] == "cli" for s in steps[: i + 1]):
+                return {"reproduced": True, "step": i, "op": st, "error": f"index files appeared in the product directory: {extra}", "steps": i}
+        return {"reproduced": False, "steps": len(steps)}
+    finally:
+        shutil.rmtree(root, ignore_errors=True)
